@@ -22,3 +22,4 @@ UNITS.append(("C08.CParser.get_rest_of_line.rest_of_the_line_character_by_charac
 UNITS.append(("C08.CParser.get_line.what_is_returned_for_every_line", LN.unit_cparser_get_line))
 UNITS.append(("C08.CParser.copy_token.nothing_at_or_behind_end_is_read", LN.unit_cparser_copy_token))
 from props.c08_ext3 import UNITS as _U3; UNITS = UNITS + _U3
+from props.c08_ext4 import UNITS as _U4; UNITS = UNITS + _U4
